@@ -21,6 +21,10 @@ pub enum Op {
   SleepNow,
   /// the posting thread pauses (virtual milliseconds)
   Pause(u64),
+  /// post a task that sleeps 1 ms and then posts task `.1` to its own scheduler
+  PostSleepingPosting(u32, u32),
+  /// (inside a task only) sleep 1 ms, then post
+  SleepThenPost(u32),
   Abort,
 }
 
@@ -42,7 +46,7 @@ fn task(log: &L, id: u32, inner: Option<Op>, sch: NewThreadScheduler<'static>) -
   let log = log.clone();
   // a plain task holds no handle of the scheduler it is queued on: when the posters are done and
   // drop theirs, the tasks still queued have to run all the same
-  let sch = if matches!(inner, Some(Op::Post(_)) | Some(Op::Abort)) { Some(sch) } else { None };
+  let sch = if matches!(inner, Some(Op::Post(_)) | Some(Op::Abort) | Some(Op::SleepThenPost(_))) { Some(sch) } else { None };
   move || {
     let i = {
       let mut l = log.lock().unwrap();
@@ -50,7 +54,10 @@ fn task(log: &L, id: u32, inner: Option<Op>, sch: NewThreadScheduler<'static>) -
       l.runs.len() - 1
     };
     rxverif_rt::point();
-    if let (Some(op), Some(sch)) = (&inner, &sch) {
+    if let (Some(Op::SleepThenPost(b)), Some(sch)) = (&inner, &sch) {
+      thread::sleep(ms(1));
+      do_op(&log, &Op::Post(*b), sch);
+    } else if let (Some(op), Some(sch)) = (&inner, &sch) {
       do_op(&log, op, sch);
     }
     if let Some(Op::SleepNow) = &inner {
@@ -69,10 +76,11 @@ fn do_op(log: &L, op: &Op, sch: &NewThreadScheduler<'static>) {
       let r = rxverif_rt::stamp();
       log.lock().unwrap().aborts.push((c, r));
     }
-    Op::SleepNow => {}
+    Op::SleepNow | Op::SleepThenPost(_) => {}
     Op::Pause(d) => thread::sleep(ms(*d)),
-    Op::Post(id) | Op::PostPosting(id, _) | Op::PostAborting(id) | Op::PostSleeping(id) => {
+    Op::Post(id) | Op::PostPosting(id, _) | Op::PostAborting(id) | Op::PostSleeping(id) | Op::PostSleepingPosting(id, _) => {
       let inner = match op {
+        Op::PostSleepingPosting(_, b) => Some(Op::SleepThenPost(*b)),
         Op::PostSleeping(_) => Some(Op::SleepNow),
         Op::PostPosting(_, b) => Some(Op::Post(*b)),
         Op::PostAborting(_) => Some(Op::Abort),
@@ -96,11 +104,11 @@ fn all_tasks(h: &[Vec<Op>]) -> Vec<u32> {
   for o in h.iter().flatten() {
     match o {
       Op::Post(a) | Op::PostAborting(a) | Op::PostSleeping(a) => v.push(*a),
-      Op::PostPosting(a, b) => {
+      Op::PostPosting(a, b) | Op::PostSleepingPosting(a, b) => {
         v.push(*a);
         v.push(*b)
       }
-      Op::Abort | Op::SleepNow | Op::Pause(_) => {}
+      Op::Abort | Op::SleepNow | Op::Pause(_) | Op::SleepThenPost(_) => {}
     }
   }
   v
@@ -261,6 +269,14 @@ pub fn scenarios() -> Vec<Scn> {
     {
       // ... the first task asleep while the back-log builds up behind it
       let mut s = history_scn("c08/M{post a sleeps, post x1100} long burst behind a sleeping task", vec![std::iter::once(PostSleeping(1)).chain((2..=1101).map(Post)).collect()], Some(0), Some(1));
+      s.min_conflicts = 1;
+      s.cfg.max_steps = 200_000;
+      s
+    },
+    {
+      // ... and that first task posts to its own scheduler when it wakes up (a bounded queue would have it
+      // wait for room that only it can make: seed C08-i)
+      let mut s = history_scn("c08/M{post a sleeps then posts z, post x1100} a task posts into a long back-log", vec![std::iter::once(PostSleepingPosting(1, 5000)).chain((2..=1101).map(Post)).collect()], Some(0), Some(1));
       s.min_conflicts = 1;
       s.cfg.max_steps = 200_000;
       s
